@@ -15,10 +15,6 @@ changing between check and use is outside the model).
 namespace Varpulis.Props.C31
 open Varpulis.PathSec
 
-/-- well-formed world: the current directory is a chain of real directories with proper names
-(relevant only when the configured work directory is a relative path) -/
-def WF (w : World) : Prop := RealDir w.fs w.cwd ∧ ∀ n ∈ w.cwd, ValidName n
-
 /-- DESIGN §7 C31: an accepted path is the canonical form of the requested path, and the components
 of the canonical work directory are a prefix of its components -/
 theorem validate_sound (w : World) (p wd : String) (c : List String)
@@ -93,10 +89,6 @@ theorem rejected_outside (w : World) (p wd : String) (cw c : List String)
 
 /-! ### Why both ingredients are needed (the two seeded changes, as theorems) -/
 
-/-- `/wd/l -> /etc` -/
-def wEscape : World :=
-  { fs := [(["wd"], .dir), (["wd", "l"], .link "/etc"), (["etc"], .dir), (["etc", "passwd"], .file)] }
-
 /-- checking the prefix before canonicalising accepts a path that leaves through a symlink;
 `validate` rejects it -/
 theorem lexical_prefix_check_unsound :
@@ -105,10 +97,6 @@ theorem lexical_prefix_check_unsound :
   constructor <;>
   simp +decide [validateLexical, validate, canon, resolve, comps, splitSlash, join, look, wEscape,
     maxSymlinks, List.lookup]
-
-/-- a sibling directory whose name extends the work directory's name -/
-def wSibling : World :=
-  { fs := [(["wd"], .dir), (["wd-evil"], .dir), (["wd-evil", "x"], .file)] }
 
 /-- comparing rendered strings instead of components accepts `/wd-evil/x` for work directory `/wd` -/
 theorem string_prefix_check_unsound :
@@ -119,12 +107,7 @@ theorem string_prefix_check_unsound :
     maxSymlinks, List.lookup]
 
 /-- non-vacuity: a request through `..`, a relative symlink and a duplicate slash that is accepted,
-in a world whose work directory is itself reached through a symlink -/
-def wOk : World :=
-  { fs := [(["srv"], .dir), (["srv", "data"], .dir), (["srv", "data", "a"], .dir),
-           (["srv", "data", "a", "f.vpl"], .file), (["srv", "data", "cur"], .link "a/../a"),
-           (["work"], .link "srv/data")] }
-
+in a world (`wOk`) whose work directory is itself reached through a symlink -/
 example : WF wOk := ⟨realDir_nil _, by intro n hn; cases hn⟩
 example : validate wOk "cur//../cur/f.vpl" "/work" = .ok ["srv", "data", "a", "f.vpl"] := by
   simp +decide [validate, canon, resolve, comps, splitSlash, join, look, wOk, maxSymlinks, List.lookup]
